@@ -1,4 +1,6 @@
 import NeoModel.Model.Wire.P256
+import NeoModel.Model.Wire.Item
+import NeoModel.Model.Wire.Mpt
 /-
 Token text of model values (the Go harness prints the same text from the real values, show.go) and the
 parser of the same text (value -> bytes direction of the tie). Driver-side code: not used by any theorem.
@@ -138,6 +140,67 @@ def pStateRoot : P StateRoot := fun ts =>
 def pExtensible : P Extensible := fun ts =>
   (pHex ts).bind fun (c, r) => (pNum r).bind fun (s, r) => (pNum r).bind fun (e, r) => (pHex r).bind fun (snd, r) =>
     (pHex r).bind fun (d, r) => (pWitness r).map fun (w, r) => (⟨c, s, e, snd, d, w⟩, r)
+
+/-! stack items -/
+
+mutual
+def showItem : Item → Toks
+  | .byteArray b => ["ba", hx b]
+  | .buffer b => ["buf", hx b]
+  | .bool b => [if b then "bool1" else "bool0"]
+  | .int v => ["int", toString v]
+  | .array l => "arr" :: num l.length :: showItems l
+  | .struct l => "struct" :: num l.length :: showItems l
+  | .map m => "map" :: num m.length :: showPairs m
+  | .null => ["null"]
+  | .interop => ["interop"]
+  | .pointer p => ["ptr", num p]
+  | .invalid => ["invalid"]
+def showItems : List Item → Toks
+  | [] => []
+  | x :: xs => showItem x ++ showItems xs
+def showPairs : List (Item × Item) → Toks
+  | [] => []
+  | (k, v) :: rest => showItem k ++ showItem v ++ showPairs rest
+end
+
+partial def pItem : P Item
+  | "ba" :: r => (pHex r).map fun (b, r') => (.byteArray b, r')
+  | "buf" :: r => (pHex r).map fun (b, r') => (.buffer b, r')
+  | "bool0" :: r => some (.bool false, r)
+  | "bool1" :: r => some (.bool true, r)
+  | "int" :: t :: r => t.toInt?.map fun v => (.int v, r)
+  | "arr" :: r => (pCounted pItem r).map fun (l, r') => (.array l, r')
+  | "struct" :: r => (pCounted pItem r).map fun (l, r') => (.struct l, r')
+  | "map" :: r => (pCounted (fun ts => (pItem ts).bind fun (k, r1) => (pItem r1).map fun (v, r2) => ((k, v), r2)) r).map
+      fun (m, r') => (.map m, r')
+  | "null" :: r => some (.null, r)
+  | "interop" :: r => some (.interop, r)
+  | "ptr" :: r => (pNum r).map fun (p, r') => (.pointer p, r')
+  | "invalid" :: r => some (.invalid, r)
+  | _ => none
+
+/-! MPT nodes -/
+
+mutual
+def showNode : Node → Toks
+  | .branch cs => "br" :: showNodes cs
+  | .ext k n => "ext" :: hx k :: showNode n
+  | .leaf v => ["leaf", hx v]
+  | .hash h => ["hash", hx h]
+  | .empty => ["empty"]
+def showNodes : List Node → Toks
+  | [] => []
+  | c :: cs => showNode c ++ showNodes cs
+end
+
+partial def pNode : P Node
+  | "br" :: r => (pList pNode NeoModel.Generated.WireLimits.mptChildrenCount r).map fun (cs, r') => (.branch cs, r')
+  | "ext" :: r => (pHex r).bind fun (k, r1) => (pNode r1).map fun (n, r2) => (.ext k n, r2)
+  | "leaf" :: r => (pHex r).map fun (v, r') => (.leaf v, r')
+  | "hash" :: r => (pHex r).map fun (h, r') => (.hash h, r')
+  | "empty" :: r => some (.empty, r)
+  | _ => none
 
 end Text
 end NeoModel.Wire
